@@ -308,6 +308,7 @@ type worldGen struct {
 	long    bool // pad names so that qualified names reach 100-300 bytes
 	// needZero: only enums whose first value is 0 may be picked (map values)
 	needZero bool
+	usedMax  bool // extension number 536870911 taken
 }
 
 // identifiers of every admissible spelling, names equal to generated method names, fields
@@ -417,6 +418,9 @@ func genWorld(r *rand.Rand, o genOpts) wWorld {
 		case 4:
 			f.Name = fmt.Sprintf(".f%d.proto", fi)
 		}
+		if r.Intn(12) == 0 && !o.goPkg { // spelled un-normalised, consistently (descriptor name, imports, targets)
+			f.Name = fmt.Sprintf([]string{"./f%d.proto", "sub//f%d.proto", "a/./f%d.proto", "b/../f%d.proto"}[r.Intn(4)], fi)
+		}
 		if r.Intn(12) == 0 { // ".proto" elsewhere than at the end
 			f.Name = []string{"acme.protos/api/f%d.proto", "f%d.proto3.proto", "x.proto/f%d.proto", "f%d.v1.proto"}[r.Intn(4)]
 			f.Name = fmt.Sprintf(f.Name, fi)
@@ -511,7 +515,7 @@ func genWorld(r *rand.Rand, o genOpts) wWorld {
 			pool := []string{"example.com/gen/alpha", "example.com/gen/beta;betapkg", "example.com/x/go-pkg", "example.com/x/v1.2", "example.com/x/type",
 				"example.com/x/9lives", "bare" + strings.ReplaceAll(dir, ".", "root"), "example.com/gen/alpha", "example.com/y/func;select", "example.com/y/Mixed_Case",
 				"example.com/z/a.b-c;d-e.f", "only/one", "example.com/q/my--pkg", "example.com/q/v1.-beta;snake__case", "example.com/q/a.-_b", "example.com/a/types", "example.com/b/types", "example.com/a/types", "example.com/b/types",
-				"example.com/acme/billing/v2", "example.com/x/y/v3", "example.com/x/mapping", "example.com/m/maps", "example.com/m/v2;mapper", "example.com/q/foo\u2013bar", "example.com/q/a\u00b7b;c\U0001F642d", "dash\u2014" + strings.ReplaceAll(dir, ".", "root")}
+				"example.com/acme/billing/v2", "example.com/x/y/v3", "gen;pb", "./pb", "example.com/api/./pb", "example.com/api//pb", "example.com/api/pb", "example.com/x/mapping", "example.com/m/maps", "example.com/m/v2;mapper", "example.com/q/foo\u2013bar", "example.com/q/a\u00b7b;c\U0001F642d", "dash\u2014" + strings.ReplaceAll(dir, ".", "root")}
 			fp.GoPackage = pool[r.Intn(len(pool))]
 		}
 		if o.locs && (fi == 0 || r.Intn(5) > 0) { // some files carry no source info at all
@@ -751,6 +755,10 @@ func (wg *worldGen) genExt(scope string, fi int, proto3 bool, vis map[int]bool) 
 	}
 	wg.extNum++
 	x := wField{Name: wg.fresh("x", scope), Number: wg.extNum, Label: 1, Extendee: target.fqn}
+	if !wg.usedMax && wg.r.Intn(3) == 0 { // the last number of the extension range (and of all field numbers)
+		wg.usedMax = true
+		x.Number = 536870911
+	}
 	if wg.r.Intn(3) == 0 {
 		x.Label = 3
 	}
@@ -780,9 +788,21 @@ func genLocs(r *rand.Rand, f *wFile) {
 			add(append(append([]int{}, path...), 7, 0, 1)...)
 		}
 	}
-	add() // whole file (protoc emits it first)
-	add(12)
-	add(2)
+	// whole file (protoc emits it first), syntax and package statements; stripped source info may
+	// lack any of them
+	switch r.Intn(6) {
+	case 0:
+		add(2)
+	case 1:
+		add(12)
+	case 2:
+		add()
+		add(2)
+	default:
+		add()
+		add(12)
+		add(2)
+	}
 	if r.Intn(2) == 0 {
 		add(3, 0) // dependency
 		add(8)    // options
